@@ -15,6 +15,8 @@ From Coq Require Import List Arith Bool ZArith Permutation.
 Import ListNotations.
 From Onet Require Import Tree.TreeMarshal Tree.TreeMarshalProofs Overlay.TreeCtl Overlay.TreeCtlProofs
      Corr.C06 Tree.C06CheckProofs.
+From Onet Require Import Overlay.C06HistCheckProofs.
+From Onet Require Overlay.Done Overlay.C06DoneProofs.
 
 (* ---- Part A: flatten to ids, rebuild against the roster ------------------------------------- *)
 
@@ -189,6 +191,24 @@ Theorem c06_peer_never_replaces : forall G gadd fx (s : cst G) (o : op G) s' out
 Proof. exact peer_never_replaces. Qed.
 Print Assumptions c06_peer_never_replaces.
 
+(* The same through the checker that ./check runs on observed histories: snapshots taken
+   from the repaired model before and after ANY peer message, for any set U of watched tree
+   ids, pass clause 5 ("a peer message never replaces a present tree"); the pinned model's
+   overwrite witness fails exactly that clause. *)
+Theorem c06_checker_clause5_on_repaired_model : forall fx U (s : cst Z) (o : op Z) s' outs oc outs0 oc0,
+  fix_n1 fx = true -> is_peer o = true ->
+  step Z.add fx s o = (s', outs, oc) ->
+  clause5_ok (Some (snap_of U s outs0 oc0)) (snap_of U s' outs oc) = true.
+Proof. exact repaired_model_never_replaces_checked. Qed.
+Print Assumptions c06_checker_clause5_on_repaired_model.
+
+Theorem c06_checker_clause5_on_pinned_model :
+  let s := fst (run Z.add pinned init [LRegister z_t]) in
+  let '(s', outs, oc) := step Z.add pinned s (PResponseTree (Some (to_marshal z_b)) (Some z_ro)) in
+  check_step (Some (snap_of [9] s [] Fine)) (PResponseTree (Some (to_marshal z_b)) (Some z_ro)) (snap_of [9] s' outs oc) = [5].
+Proof. exact pinned_model_fails_clause5. Qed.
+Print Assumptions c06_checker_clause5_on_pinned_model.
+
 (* What repair N1 leaves open (it keeps the existing white-box test of the pending list
    passing): a bare description accepted while the id was awaited stays pending when the tree
    then arrives by a full response; after that tree's release the late roster message stores
@@ -243,6 +263,12 @@ Theorem c06_malformed_response_ignored : forall G gadd fx (s : cst G) m ro,
 Proof. exact malformed_response_ignored. Qed.
 Print Assumptions c06_malformed_response_ignored.
 
+Theorem c06_incomplete_response_ignored : forall G gadd fx (s : cst G) otm oro,
+  (otm = None \/ oro = None \/ exists m, otm = Some m /\ tm_tid m = 0) ->
+  step gadd fx s (PResponseTree otm oro) = (s, [], Fine).
+Proof. exact incomplete_response_ignored. Qed.
+Print Assumptions c06_incomplete_response_ignored.
+
 Theorem c06_response_never_crashes : forall G gadd fx (s : cst G) otm oro s' outs oc,
   fix_f06 fx = true -> step gadd fx s (PResponseTree otm oro) = (s', outs, oc) -> oc = Fine.
 Proof. exact response_never_crashes. Qed.
@@ -272,14 +298,14 @@ Print Assumptions c06_learnt_equals_sender.
 
 (* The deprecated roster-then-tree form: bare description (a roster request goes out), then
    the roster. *)
-Theorem c06_learnt_equals_sender_deprecated : forall G gadd fx (asker : cst G) (t : stree G) ro,
+Theorem c06_learnt_equals_sender_deprecated : forall G gadd fx (asker : cst G) (t : stree G) ro pick,
   wf_tree G gadd t ro -> t_id t <> 0 -> r_id ro <> 0 ->
   tree_state asker (t_id t) = Requested ->
   c_plock asker = false ->
-  inst_roster asker (c_insts asker) (r_id ro) None = Ok None ->
+  inst_roster asker (c_insts asker) (r_id ro) pick = Ok None ->
   lookup (c_pend asker) (r_id ro) = None ->
   exists a1 a2,
-    step gadd fx asker (PTreeMarshal (to_marshal t)) = (a1, [ORequestRoster (r_id ro)], Fine) /\
+    step gadd fx asker (PTreeMarshal (to_marshal t) pick) = (a1, [ORequestRoster (r_id ro)], Fine) /\
     step gadd fx a1 (PRoster ro) = (a2, [], Fine) /\
     get_tree a2 (t_id t) = Some t.
 Proof. exact learnt_equals_sender_deprecated. Qed.
@@ -300,3 +326,19 @@ Theorem c06_store_keyed_by_tree_id : forall G gadd fx ops (s : cst G) oc,
   forall tid t, lookup (c_store s) tid = Some (Some t) -> t_id t = tid.
 Proof. exact keyed_from_init. Qed.
 Print Assumptions c06_store_keyed_by_tree_id.
+
+(* The same "only solicited" rule over the concurrent transition system of C11
+   (Overlay/Done.v: message threads, local runs, done-declarations, timer goroutines, one
+   action = one critical section), for every interleaving and every variant: an id is
+   requested or present only if a local registration or a tree request for it came earlier,
+   and a tree response for an absent id is ignored. *)
+Theorem c06_only_solicited_interleaved : forall fx acts s i,
+  Done.run fx Done.init acts = Some s -> Done.trees s i <> Done.TAbsent ->
+  In i (C06DoneProofs.dasked acts).
+Proof. exact C06DoneProofs.done_only_solicited. Qed.
+Print Assumptions c06_only_solicited_interleaved.
+
+Theorem c06_unsolicited_arrival_ignored : forall fx s i,
+  Done.trees s i = Done.TAbsent -> Done.step fx s (Done.TreeArrive i) = Some s.
+Proof. exact C06DoneProofs.done_unsolicited_arrival_ignored. Qed.
+Print Assumptions c06_unsolicited_arrival_ignored.
